@@ -50,6 +50,14 @@ var c04LitsFn = []string{
 	"!:lt(X, 2)", "!:le(Y, X)", "!:lt(fn:plus(X, 1), 3)", "!:list:member(X, [1, Y])",
 }
 
+// destructuring built-ins whose output positions repeat a variable, hold a bound variable, or name the scrutinee itself
+var c04LitsMatch = []string{
+	"q(X)", "r(X,Y)", "P = fn:pair(X, Y)", "P = fn:pair(X, X)", "L = [X, Y]", "L = [X]", "L = [[X], X]",
+	":match_pair(P, X, X)", ":match_pair(P, Z, Z)", ":match_pair(P, Z, W)", ":match_pair(P, X, Z)", ":match_pair(P, Z, P)",
+	":match_cons(L, X, X)", ":match_cons(L, Z, Z)", ":match_cons(L, Z, W)", ":match_cons(L, Z, L)", ":match_nil(L)",
+	":list:member(Z, L)", ":list:member(X, L)",
+}
+
 // transform tails for the function family: let chains in and out of definition order
 var c04TransformsFn = []string{"", " |> let Y = fn:plus(X, 1)", " |> let W = fn:plus(X, 1), let Y = fn:plus(X, W)", " |> let Y = fn:plus(X, W), let W = fn:plus(X, 1)",
 	" |> do fn:group_by(X), let Y = fn:count(), let Z = fn:sum(X)", " |> do fn:group_by(X), let Y = fn:sum(W)"}
@@ -158,6 +166,25 @@ func c04(r *rt.Run) {
 		}
 		clauses = kept
 	}
+	{
+		// the destructuring family: bodies of <= 3 literals over c04LitsMatch, heads over X / Z, no transform
+		saveT, saveH := c04Transforms, c04Heads
+		c04Transforms, c04Heads = []string{""}, []string{"h(X)", "h(Z)", "h(X,Z)", "h(Z,W)"}
+		n0 := len(clauses)
+		rec(c04LitsMatch, 3, nil, make([]bool, len(c04LitsMatch)))
+		c04Transforms, c04Heads = saveT, saveH
+		seen := map[string]bool{}
+		for _, c := range clauses[:n0] {
+			seen[c] = true
+		}
+		kept := clauses[:n0]
+		for _, c := range clauses[n0:] {
+			if !seen[c] {
+				kept = append(kept, c)
+			}
+		}
+		clauses = kept
+	}
 	if r.Thorough() {
 		n0 := len(clauses)
 		rec(c04LitsSmall, 4, nil, make([]bool, len(c04LitsSmall)))
@@ -180,7 +207,7 @@ func c04(r *rt.Run) {
 		}
 		c04Clause(r, clauses[i])
 	})
-	r.Finish("every clause H :- L1..Lk (k<=3 over 28 literals, k<=3 over a 20-literal family with function applications inside atoms / wildcards in equalities / list patterns x 6 transform tails incl. let chains, k=4 over a focused 9-literal set and over an 8-literal set with wildcards in atoms and equalities; a temporal family (10 head annotation forms x every ordered body of <=2 literals over 16 annotated atoms/operators, evaluated against a temporal store: no panic, no 'variable has no value' error); thorough adds k=4 over 16) in every order x 5 heads x 4 transform tails, analysed alone with declared EDB predicates; accepted ones evaluated on 3 EDBs; " +
+	r.Finish("every clause H :- L1..Lk (k<=3 over 28 literals, k<=3 over a 20-literal family with function applications inside atoms / wildcards in equalities / list patterns x 6 transform tails incl. let chains, k<=3 over a 19-literal destructuring family (:match_pair / :match_cons / :match_nil / :list:member with repeated, bound and self-referential output positions), k=4 over a focused 9-literal set and over an 8-literal set with wildcards in atoms and equalities; a temporal family (10 head annotation forms x every ordered body of <=2 literals over 16 annotated atoms/operators, evaluated against a temporal store: no panic, no 'variable has no value' error); thorough adds k=4 over 16) in every order x 5 heads x 4 transform tails, analysed alone with declared EDB predicates; accepted ones evaluated on 3 EDBs; " +
 		"non-trivial = accepted clause whose reference result is non-empty on some EDB; distinct by construction")
 }
 
